@@ -4,6 +4,7 @@ import (
 	"flag"
 	"fmt"
 	"sort"
+	"strconv"
 	"strings"
 
 	"github.com/EliCDavis/jbtf"
@@ -298,6 +299,31 @@ func (i *Instance) EncodeToAppSchema(appSchema *schema.App, encoder *jbtf.Encode
 	appSchema.Metadata = i.metadata.Data()
 }
 
+// dependencyNameLess orders input names alphabetically, and the slots of an
+// array input ("Values.2", "Values.10") by their number rather than as text.
+// Array slots are re-connected in file order when a graph is loaded, so they
+// have to be written in slot order.
+func dependencyNameLess(a, b string) bool {
+	aBase, aSlot, aIsSlot := splitArraySlot(a)
+	bBase, bSlot, bIsSlot := splitArraySlot(b)
+	if aIsSlot && bIsSlot && strings.EqualFold(aBase, bBase) {
+		return aSlot < bSlot
+	}
+	return strings.ToLower(a) < strings.ToLower(b)
+}
+
+func splitArraySlot(name string) (string, int, bool) {
+	index := strings.LastIndex(name, ".")
+	if index == -1 {
+		return name, 0, false
+	}
+	slot, err := strconv.Atoi(name[index+1:])
+	if err != nil {
+		return name, 0, false
+	}
+	return name[:index], slot, true
+}
+
 func (i *Instance) buildNodeGraphInstanceSchema(node nodes.Node, encoder *jbtf.Encoder) schema.AppNodeInstance {
 
 	nodeInstance := schema.AppNodeInstance{
@@ -314,7 +340,7 @@ func (i *Instance) buildNodeGraphInstanceSchema(node nodes.Node, encoder *jbtf.E
 	}
 
 	sort.Slice(nodeInstance.Dependencies, func(i, j int) bool {
-		return strings.ToLower(nodeInstance.Dependencies[i].Name) < strings.ToLower(nodeInstance.Dependencies[j].Name)
+		return dependencyNameLess(nodeInstance.Dependencies[i].Name, nodeInstance.Dependencies[j].Name)
 	})
 
 	if param, ok := node.(CustomGraphSerialization); ok {
